@@ -102,6 +102,8 @@ def op_sweep(case, ybar_of):
         raw = ops.build_args(case)
         fargs = [Function(a) if isinstance(a, UTPM) else a for a in raw]
         r = ops.OPS[case['op']]['call'](fargs)
+        if isinstance(r, Function) and isinstance(r.x, tuple):
+            r = [r[i] for i in range(len(r.x))]          # several outputs: one Function per output, as `l, Q = eigh(A)` does
         outs = [o for o in (r if isinstance(r, (tuple, list)) else [r]) if isinstance(o, Function) and isinstance(o.x, UTPM)]
         cg.trace_off()
         if not outs:
@@ -172,6 +174,6 @@ def op_truncation_adjoint_fails(case):
     return None
 
 
-def reversible_ops():
+def reversible_ops(for_truncation=True):
     import ops
-    return [n for n in sorted(ops.OPS) if not n.startswith('ibin') and 'no-trunc' not in ops.OPS[n]['tags']]
+    return [n for n in sorted(ops.OPS) if not n.startswith('ibin') and (not for_truncation or 'no-trunc' not in ops.OPS[n]['tags'])]
